@@ -25,6 +25,7 @@ type ClientCfg struct {
 	Timeout   time.Duration `json:"timeout"`
 	Devices   []DeviceCfg   `json:"devices,omitempty"`
 	NilDevs   bool          `json:"nildevs,omitempty"`
+	Debug     bool          `json:"debug,omitempty"` // the library's debug flag: dumps every message to stdout
 }
 
 // Endpoint is something on the simulated network that is listening.
